@@ -19,7 +19,11 @@ PROP = dict(
          'Finalize; 1 add-files script through the stagemaker binary (-list stage -files -addfiles) on a stage '
          'skeleton; 1 stagemaker -generate run with -compress / -o / recipe compress lines (method read from the '
          'magic bytes of the output); 2 recipe files through the stagemaker binary (-list system -recipe, with and without -root/'
-         '-profile/-atoms/-atomsfile switches). Non-trivial: a line with an option or quoting/escaping, every '
+         '-profile/-atoms/-atomsfile switches); of these, 2 in 3 of the second slot are recipes whose root/profile/atomsfile '
+         '(also atoms/compress/addfiles) value has white-space runs INSIDE it (2+ blanks, tabs, \\v \\f \\r, NBSP, NEL, EM SPACE), '
+         'run in a per-case directory of such paths and of sibling paths that differ only in the white space, each with its own '
+         'atoms (the path as written / only siblings / both exist); every 4th process-level script is named by a recipe line '
+         '"addfiles <path with white-space runs>" with sibling files of other content. Non-trivial: a line with an option or quoting/escaping, every '
          'non-empty mode string, every list/process/recipe case; distinct by the input bytes',
     explanation='theorems (all inputs): parse_fields(render sl)=fields for the three documented quoting styles; '
                 'parseLine/ReadUserFileList never panic on any byte string; accepted lines use only documented '
